@@ -308,3 +308,65 @@ func CloseStorm(n, G int) (rounds int64, findings []Finding) {
 	}
 	return rounds, findings
 }
+
+// DescendingPushStorm: n rounds, each on a fresh Reassembler holding one incomplete event whose push has
+// returned; then G goroutines push fresh, ever LOWER incomplete sequences while another goroutine calls
+// Close. New heads keep appearing under the flush: whatever Close does must still be one atomic flush, so the
+// record pushed before Close is delivered exactly once and nothing is delivered twice.
+func DescendingPushStorm(n, G int) (rounds int64, findings []Finding) {
+	Install()
+	for i := 0; i < n && len(findings) == 0; i++ {
+		st := &stressStream{}
+		r, err := libaudit.NewReassembler(1<<20, time.Hour, st)
+		if err != nil {
+			return rounds, []Finding{{"new-error", err.Error()}}
+		}
+		st.r = r
+		first := &tag{seq: 1 << 20}
+		r.PushMessage(&auparse.AuditMessage{RecordType: 1300, Sequence: first.seq, Payload: first})
+		start := make(chan struct{})
+		var wg sync.WaitGroup
+		var next atomic.Uint32
+		next.Store(1 << 20)
+		tags := make([][]*tag, G)
+		for g := 0; g < G; g++ {
+			wg.Add(1)
+			go func(g int) {
+				defer wg.Done()
+				<-start
+				for j := 0; j < 16; j++ {
+					t := &tag{seq: next.Add(^uint32(0))} // next - 1
+					tags[g] = append(tags[g], t)
+					r.PushMessage(&auparse.AuditMessage{RecordType: 1300, Sequence: t.seq, Payload: t})
+				}
+			}(g)
+		}
+		wg.Add(1)
+		var closeErr error
+		go func() {
+			defer wg.Done()
+			<-start
+			for k := 0; k < i%64; k++ {
+				runtime.Gosched() // vary where in the storm the Close lands
+			}
+			closeErr = r.Close()
+		}()
+		close(start)
+		wg.Wait()
+		rounds++
+		if closeErr != nil {
+			findings = append(findings, Finding{"close-error", fmt.Sprintf("round %d: the only Close returned %v", i, closeErr)})
+		}
+		if c := atomic.LoadInt32(&first.count); c != 1 {
+			findings = append(findings, Finding{"lost-before-close", fmt.Sprintf("round %d: the record whose push returned before Close was invoked was delivered %d times (Close ran beside %d goroutines pushing ever lower new sequences)", i, c, G)})
+		}
+		for g := range tags {
+			for _, t := range tags[g] {
+				if c := atomic.LoadInt32(&t.count); c > 1 {
+					findings = append(findings, Finding{"delivered-twice", fmt.Sprintf("round %d: record seq=%d delivered %d times", i, t.seq, c)})
+				}
+			}
+		}
+	}
+	return rounds, findings
+}
